@@ -178,14 +178,35 @@ func checkExperiment(sc *statsCase, c *checker) int {
 	e := experiment.Experiment{Id: 1, Trials: make(experiment.Trials, len(sc.Trials))}
 	touch := func(i int) {
 		_ = guard(func() {
-			e.TrialsSolved(); e.Solved(); e.SuccessRate(); e.AvgGenerationsPerTrial(); e.AvgWinnerStatistics()
-			e.BestFitness(); e.BestSpeciesAge(); e.BestComplexity(); e.AvgDiversity(); e.EpochsPerTrial()
-			e.BestOrganism(false); e.BestOrganism(true); e.AvgTrialDuration(); e.AvgEpochDuration(); e.MostRecentTrialEvalTime()
+			e.TrialsSolved()
+			e.Solved()
+			e.SuccessRate()
+			e.AvgGenerationsPerTrial()
+			e.AvgWinnerStatistics()
+			e.BestFitness()
+			e.BestSpeciesAge()
+			e.BestComplexity()
+			e.AvgDiversity()
+			e.EpochsPerTrial()
+			e.BestOrganism(false)
+			e.BestOrganism(true)
+			e.AvgTrialDuration()
+			e.AvgEpochDuration()
+			e.MostRecentTrialEvalTime()
 		})
 		_ = guard(func() {
 			t := &e.Trials[i]
-			t.Solved(); t.ChampionsFitness(); t.ChampionSpeciesAges(); t.ChampionsComplexities(); t.Diversity(); t.Average()
-			t.WinnerStatistics(); t.BestOrganism(false); t.BestOrganism(true); t.AvgEpochDuration(); t.RecentEpochEvalTime()
+			t.Solved()
+			t.ChampionsFitness()
+			t.ChampionSpeciesAges()
+			t.ChampionsComplexities()
+			t.Diversity()
+			t.Average()
+			t.WinnerStatistics()
+			t.BestOrganism(false)
+			t.BestOrganism(true)
+			t.AvgEpochDuration()
+			t.RecentEpochEvalTime()
 		})
 	}
 	for i, t := range sc.Trials {
